@@ -516,7 +516,13 @@ func scriptNames(scripts []c20Script) string {
 // to stderr; the parent classifies them.
 func C20RacePass(reps int) {
 	all := c20Scripts()
-	runSet := func(smtp bool, pick []int) {
+	vtime.NoCount = true
+	// rep 0 of every set: one shared world, the clients' k-th requests aligned by a barrier (requests
+	// really overlap in time). Further reps: split mode - a private world and mutex per client, no
+	// barrier, no shared wait group, the real crypto/rand: the harness then creates no happens-before
+	// edge between two clients, so every pair of unordered conflicting accesses inside the library is
+	// visible to the detector whether or not the accesses happen to overlap in time.
+	runSet := func(smtp bool, pick []int, split bool) {
 		var scripts []c20Script
 		for _, p := range pick {
 			scripts = append(scripts, all[p])
@@ -524,42 +530,64 @@ func C20RacePass(reps int) {
 		s, w, cs := c20Fixture(smtp, scripts)
 		mu := &sync.Mutex{}
 		s.FreeMu = mu
-		_ = w
 		var wg sync.WaitGroup
-		vsched.Install(&vsched.Hooks{Spawn: func(f func()) {
+		spawn := func(f func()) {
 			wg.Add(1)
 			go func() { defer wg.Done(); f() }()
-		}})
-		var cw sync.WaitGroup
-		bar := newBarrier(len(cs))
+		}
+		var bar *cyclicBarrier
+		if split {
+			rand.Reader = realRand
+			s.Split = &world.Split{W: map[string]*world.World{}, Mu: map[string]*sync.Mutex{}, Addr: map[string]string{}}
+			for _, c := range cs {
+				c.w, c.mu = w.Clone(), &sync.Mutex{}
+				s.Split.W[c.browser], s.Split.Mu[c.browser], s.Split.Addr[c.pid] = c.w, c.mu, c.browser
+			}
+			spawn = func(f func()) { go f() }
+		} else {
+			bar = newBarrier(len(cs))
+			for _, c := range cs {
+				c.mu, c.barrier = mu, bar.wait
+			}
+		}
+		vsched.Install(&vsched.Hooks{Spawn: spawn})
+		done := make([]chan struct{}, len(cs))
 		for i, c := range cs {
-			c.mu = mu
-			c.barrier = bar.wait
-			cw.Add(1)
+			done[i] = make(chan struct{})
 			go func() {
-				defer cw.Done()
-				defer bar.leave()
+				defer close(done[i])
+				if bar != nil {
+					defer bar.leave()
+				}
 				scripts[i].steps(c)
 			}()
 		}
-		cw.Wait()
+		for _, d := range done {
+			<-d
+		}
 		wg.Wait()
+		if split {
+			time.Sleep(20 * time.Millisecond) // straggling mail goroutines
+		}
 		vsched.Install(nil)
 	}
 	for _, smtp := range []bool{false, true} {
 		for i := range all {
 			for j := i; j < len(all); j++ {
 				for r := 0; r < reps; r++ {
-					runSet(smtp, []int{i, j})
+					runSet(smtp, []int{i, j}, r > 0)
 				}
 			}
 		}
 		for r := 0; r < reps; r++ {
-			runSet(smtp, []int{0, 1, 2, 3, 4})
+			runSet(smtp, []int{0, 1, 2, 3, 4}, r > 0)
 		}
 	}
 	fmt.Println("racepass done")
 }
+
+// realRand is the process's crypto/rand source, before any fixture replaces it.
+var realRand = rand.Reader
 
 // cyclicBarrier lines the clients' k-th requests up so that they really overlap.
 type cyclicBarrier struct {
